@@ -86,7 +86,7 @@ def ann_immutable(ann: ast.expr | None) -> bool:
 
 class FlowAnalysis:
     def __init__(self, fn: ast.AST, param_origins: dict[str, Origin] | None = None, outer_env: dict[str, Origin] | None = None,
-                 on_call: t.Callable[[ast.Call, list[Origin], dict[str, Origin]], Origin | None] | None = None) -> None:
+                 on_call: t.Callable[[ast.Call, list[Origin], dict[str, Origin]], Origin | None] | None = None, trust_annotations: bool = True) -> None:
         self.fn = fn
         self.mutations: list[Mutation] = []
         self.on_call = on_call
@@ -98,7 +98,9 @@ class FlowAnalysis:
         for p in allp:
             o = (param_origins or {}).get(p.arg)
             env[p.arg] = o if o is not None else frozenset({f"param:{p.arg}"})
-            if ann_immutable(p.annotation):
+            # (the parameters of a registered filter / test receive whatever the template passes:
+            # an annotation `str` does not keep a list from arriving there)
+            if trust_annotations and ann_immutable(p.annotation):
                 self.immutable_params.add(p.arg)
         if a.vararg:
             env[a.vararg.arg] = (param_origins or {}).get(a.vararg.arg, frozenset({"varkw:" + a.vararg.arg}))
@@ -412,7 +414,7 @@ def analyse_module_functions(
                     work.append(f)
             return None
 
-        fa = FlowAnalysis(fn, param_in.get(name) if name not in entries or param_in.get(name) else None, on_call=on_call)
+        fa = FlowAnalysis(fn, param_in.get(name) if name not in entries or param_in.get(name) else None, on_call=on_call, trust_annotations=name not in entries)
         result[name] = (fa.mutations, param_in.get(name, {}))
     return result
 
